@@ -495,6 +495,9 @@ class TreeGen:
         s = ['LogLogit', choice, entries]
         if full and self._p(0.5):
             s.append('full')
+        elif not full and self._p(0.5):
+            # the availability dictionary may list the alternatives in another order
+            s += [None, list(self.draw(st.permutations(alts)))]
         return s
 
 
